@@ -139,12 +139,18 @@ def real_outcome(pp, root, s):
         return dumps(gram.exc_canon(pp, ex)), None, probs
     except RecursionError:
         return dumps([Sym("internal"), Sym("RecursionError")]), None, probs
-    v = view(pp, r, probs)
+    except Exception as ex:  # noqa - an internal error escaping parse_string: a correspondence difference (C06's subject)
+        return dumps([Sym("internal"), Sym(type(ex).__name__)]), None, probs
     try:
+        v = view(pp, r, probs)
         probs.extend(dump_problems(pp, r))
+        d = canon_dict(r.as_dict())
     except RecursionError:
-        pass
-    return dumps([Sym("ok"), v, canon_dict(r.as_dict())]), dumps(gram.canon_toks(r)), probs
+        return dumps([Sym("internal"), Sym("RecursionError")]), None, []
+    except Exception as ex:  # noqa - a lookup on a successful parse raised
+        return dumps([Sym("internal"), Sym(type(ex).__name__)]), dumps(gram.canon_toks(r)), \
+            [f"a name lookup on the result raised {type(ex).__name__}: {str(ex)[:80]}"]
+    return dumps([Sym("ok"), v, d]), dumps(gram.canon_toks(r)), probs
 
 
 # ---------------------------------------------------------------------------------------------------
@@ -351,6 +357,59 @@ def eval_names(job):
     return {"records": recs, "kinds": kinds, "n_named": n_named}
 
 
+def prune(prog, root):
+    """the statements the root depends on (readability of a reported case; the case is re-evaluated afterwards)"""
+    defs = {st[0]: st for st in prog if st[0] != "_"}
+    keep, todo = set(), [root]
+
+    def refs(x):
+        if isinstance(x, str):
+            return [x] if x in defs else []
+        if isinstance(x, list):
+            return [y for e in x for y in refs(e)]
+        if isinstance(x, dict):
+            return [y for e in x.values() for y in refs(e)]
+        return []
+
+    changed = True
+    while changed:
+        changed = False
+        while todo:
+            v = todo.pop()
+            if v in keep:
+                continue
+            keep.add(v)
+            changed = True
+            todo.extend(refs(defs[v][2:]))
+        for st in prog:     # `<<=` / action / ... on something kept pulls in its other operands
+            if st[0] == "_" and st[2] in keep:
+                for y in refs(st[3:]):
+                    if y not in keep:
+                        todo.append(y)
+                        changed = True
+    return [st for st in prog if (st[0] in keep) or (st[0] == "_" and st[2] in keep)]
+
+
+def shrink_case(c, still_fails):
+    p2 = prune(c["prog"], c["root"])
+    if len(p2) < len(c["prog"]):
+        c2 = dict(c, prog=p2)
+        try:
+            if still_fails(c2):
+                return c2
+        except Exception:  # noqa
+            pass
+    return c
+
+
+def _names_differ(c):
+    r = eval_names(dict(prog=c["prog"], root=c["root"], inputs=[c["input"]], modes=[tuple(c.get("mode", ["none"]))]))
+    if "records" not in r or not r["records"]:
+        return False
+    (s, mode, impl, toks, line, tline, probs) = r["records"][0]
+    return bool(probs) or common.Driver().run([line])[0] != impl
+
+
 def run_names(ctx, stream, jobs):
     """real object's name view vs the Lean view; a difference with EQUAL token lists is a failing input of the property
     (expected = the declarative reading of the model's annotated tree, C05_view_refines / C05_as_dict_refines)"""
@@ -397,6 +456,7 @@ def run_names(ctx, stream, jobs):
         kk[k] = kk.get(k, 0) + v
     # lookup forms / dump on the real object (model-free)
     for c, probs in sorted(forms, key=lambda x: (len(x[0]["prog"]), len(x[0]["input"])))[:2]:
+        c = shrink_case(c, _names_differ)
         ctx.fail_input("lookup forms of a results name disagree on the real object", c, "r[k] == r.get(k) == r.k, dump() lists them",
                        probs[:3], theorem="PP.Names.C05_lookup_forms_agree", how="harness.props.c05.replay")
     # a names difference on a parse whose token list the model predicts correctly
@@ -408,6 +468,7 @@ def run_names(ctx, stream, jobs):
                 cand.append(i)
         cand.sort(key=lambda i: (len(cases[i]["prog"]), len(cases[i]["input"])))
         for i in cand[:2]:
+            cases[i] = shrink_case(cases[i], _names_differ)
             ctx.fail_input("results names differ from the declarative reading of the final parse", cases[i], model[i], impl[i],
                            theorem="PP.Names.C05_view_refines / C05_as_dict_refines", how="harness.props.c05.replay")
     return diffs
@@ -563,9 +624,16 @@ def constructed_job(case):
             except common.CaseTimeout:
                 out.append((list(mode), ["hang"]))
                 continue
-            probs = check_expect(pp, r, case["expect"], case.get("absent", ()))
-            probs.extend(dump_problems(pp, r))
-            d = r.as_dict()
+            except Exception as ex:  # noqa
+                out.append((list(mode), [f"parse_string raised {type(ex).__name__}: {str(ex)[:80]}"]))
+                continue
+            try:
+                probs = check_expect(pp, r, case["expect"], case.get("absent", ()))
+                probs.extend(dump_problems(pp, r))
+                d = r.as_dict()
+            except Exception as ex:  # noqa
+                out.append((list(mode), [f"a name lookup raised {type(ex).__name__}: {str(ex)[:80]}"]))
+                continue
             for name, want in case["expect"].items():
                 flat = isinstance(want, (str, int)) or (isinstance(want, list) and all(isinstance(x, str) for x in want))
                 if flat and name in d and d[name] != want:
@@ -645,6 +713,8 @@ def twin_job(job):
             try:
                 return g1.parse_string(s), g2.parse_string(s)
             except pp.ParseBaseException:
+                return None
+            except Exception:  # noqa - an internal error: the correspondence leg's subject
                 return None
         try:
             rr = common.with_alarm(2.0, both)
@@ -752,13 +822,7 @@ def replay(data):
             return bool(constructed_job(dict(c, modes=[c.get("mode", ["none"])])))
         if "name" in c:      # twin
             return bool(twin_job(dict(prog=c["prog"], root=c["root"], inputs=[c["input"]]))[1])
-        r = eval_names(dict(prog=c["prog"], root=c["root"], inputs=[c["input"]], modes=[tuple(c.get("mode", ["none"]))]))
-        if "records" not in r:
-            return False
-        (s, mode, impl, toks, line, tline, probs) = r["records"][0]
-        if probs:
-            return True
-        return common.Driver().run([line])[0] != impl
+        return _names_differ(c)
     ctx = common.Ctx("C05", "quick", data.get("seed", 0))
     run(ctx)
     return bool(ctx.broken or ctx.fail_inputs)
